@@ -254,7 +254,7 @@ reg(
     LEVEL_TEXT="Runtime monitoring with tagged responses: every delivered byte sequence must be a prefix of the body generated for that request id (foreign, shifted or stray bytes are visible), the delivered status must be one the server sent for that id, and the server-side monitor flags any response obtained from a connection that still had undelivered bytes of an earlier exchange when the request arrived.",
     LEVEL_NOTE="Trusts the in-memory network's delivery bookkeeping (segments / kernel buffer) for the 'unclean connection' monitor.",
     TECHNIQUE="history monitoring with unique ids embedded in every response (prefix oracle) + server-side cleanliness monitor at request arrival",
-    REQUIRED_MONITORS={"quick": {"history": 5000, "body_prefix": 10000, "clean_connection": 5000, "two_idle_connections": 60}, "thorough": {"history": 10**5, "body_prefix": 10**5, "two_idle_connections": 60}},
+    REQUIRED_MONITORS={"quick": {"history": 5000, "body_prefix": 10000, "clean_connection": 5000, "two_idle_connections": 60, "released_unread_then_collected": 4}, "thorough": {"history": 10**5, "body_prefix": 10**5, "two_idle_connections": 60, "released_unread_then_collected": 4}},
 )
 
 reg(
